@@ -329,7 +329,7 @@ func TestDocumentRespelling(t *testing.T) {
 			return
 		}
 		if rapid.Bool().Draw(t, "mutate") {
-			doc, _ = gen.Mutate(t, doc, append([]string{"kab", "plain/key"}, gen.KeyPoolC01...), "mut")
+			doc, _ = gen.Mutate(t, doc, append([]string{"kab", "plain/key/x"}, gen.KeyPoolC01...), "mut")
 		}
 		a := gen.Print(doc, nil)
 		// respell: blanks, property order, escape spelling of every string and key
